@@ -179,7 +179,7 @@ Definition effective_doc (oo : option opts) (w h : Z) (has_alpha : bool) : Res e
        | Some q =>
          let meta := (oICC o, oEXIF o, oXMP o) in
          if oLossless o then Ok (ELossless (mkLL q (oMethod o) 100 (oExact o)) meta)
-         else Ok (ELossy (lossy_config_doc o q has_alpha) (alpha_config_doc o) (oExact o) (oUseSharpYUV o) meta)
+         else Ok (ELossy (apply_clamps (lossy_config_doc o q has_alpha)) (alpha_config_doc o) (oExact o) (oUseSharpYUV o) meta)
        end.
 
 (** Documented preset rows, as field updates of DefaultOptions(). *)
